@@ -1758,7 +1758,8 @@ func (rn *runner) startPrepareFails(kind, role int, batch bool) *startedRun {
 //
 //	a  start a query of statement 0        b  start a query of statement 1 (cache of 1: evicts statement 0's entry)
 //	c  start a batch [statement 1, statement 0]
-//	k  cancel the oldest running execution whose context has not been cancelled yet
+//	k  cancel the oldest running execution whose context has not been cancelled yet (as a rule the one that published
+//	   the flight the others wait for)   l  cancel the youngest such execution (as a rule a waiter)
 //	p  let the oldest held PREPARE answer go    x  let the oldest held EXECUTE / BATCH answer go
 //
 // pf: per PREPARE in arrival order o(k) | e(rror frame) | g(arbled) | k(other kind); xf: per EXECUTE / BATCH with known ids
@@ -1856,7 +1857,7 @@ func (rn *runner) stepped(capacity int, word, pf, xf string) {
 			start(&callSpec{host: 0, entries: []entrySpec{e1}})
 		case 'c':
 			start(&callSpec{host: 0, batch: true, entries: []entrySpec{e1, e0}})
-		case 'k':
+		case 'k', 'l':
 			w.h.mu.Lock()
 			var nums []int
 			for num, lc := range w.live {
@@ -1866,7 +1867,11 @@ func (rn *runner) stepped(capacity int, word, pf, xf string) {
 			}
 			sort.Ints(nums)
 			if len(nums) > 0 {
-				w.cancelLocked(nums[0])
+				if word[i] == 'k' {
+					w.cancelLocked(nums[0])
+				} else {
+					w.cancelLocked(nums[len(nums)-1])
+				}
 			}
 			w.h.mu.Unlock()
 		case 'p':
@@ -1893,7 +1898,7 @@ func (rn *runner) steppedRandom() {
 	n := 4 + r.Intn(8)
 	word := []byte{"abc"[r.Intn(3)]}
 	for len(word) < n {
-		word = append(word, "aabcckppppxxx"[r.Intn(13)])
+		word = append(word, "aabccklppppxxx"[r.Intn(14)])
 	}
 	pf := make([]byte, 8)
 	for i := range pf {
@@ -2484,15 +2489,15 @@ func sessionTier(r *vh.Rng, out *vh.Out, outdir string, mult int) {
 		steps = append(steps, rn.steppedRandom)
 	}
 	if mult > 1 {
-		// thorough: every word a·w, |w| = 4 over {a, b, k, p, x}, cache of 1 and unbounded, first PREPARE ok / failing, first
-		// EXECUTE answered UNPREPARED(forget) - 2 x 2 x 625 runs
-		letters := "abkpx"
+		// thorough: every word a·w, |w| = 4 over {a, b, k, l, p, x}, cache of 1 and unbounded, first PREPARE ok / failing,
+		// first EXECUTE answered UNPREPARED(forget) - 2 x 2 x 1296 runs
+		letters := "abklpx"
 		for _, capacity := range []int{1, 1000} {
 			for _, pf := range []string{"oooooooo", "eooooooo"} {
-				for i := 0; i < 625; i++ {
+				for i := 0; i < 1296; i++ {
 					wd := []byte{'a'}
-					for j, x := 0, i; j < 4; j, x = j+1, x/5 {
-						wd = append(wd, letters[x%5])
+					for j, x := 0, i; j < 4; j, x = j+1, x/6 {
+						wd = append(wd, letters[x%6])
 					}
 					capacity, pf, word := capacity, pf, string(wd)
 					steps = append(steps, func() { rn.stepped(capacity, word, pf, "foooooooo") })
